@@ -10,7 +10,7 @@ prepends the stored envelope (taken from the socket) onto the reply exactly once
 (R07.5) ZmqMessage::prepend keeps frame order (reverse iteration + push_front), split_off delegates to
 VecDeque::split_off. Does NOT decide payload byte equality end to end."""
 from ..sym import show, walk_expr
-from ..common import short, trait_impls, coroutine_of, strip_casts
+from ..common import short, trait_impls, coroutine_of, strip_casts, emptiness, is_empty_bytes
 from .. import pathq
 from ..oblig import implied_ge
 
@@ -87,7 +87,7 @@ def check_req_send(f, rep):
             muts = msg_mutations(p, is_param_msg, upto=i)
             pushes = [m for _, m in muts if short(m.name) == "push_front"]
             others = [short(m.name) for _, m in muts if short(m.name) != "push_front"]
-            empty = len(pushes) == 1 and pathq.mentions_call(pushes[0].args[1], lambda x: short(x[1]) == "new" and "Bytes" in x[1]) is not None
+            empty = len(pushes) == 1 and is_empty_bytes(pushes[0].args[1])
             rep.check(ok_item and len(pushes) == 1 and empty and not others, "R07.1", "R07.1|delimiter-once",
                       "REQ writes the caller's message after exactly one push_front(Bytes::new()) and nothing else (pushes=%d empty=%s other=%s)" % (len(pushes), empty, others), co.loc(ev.bb))
         if p.end == "return" and pathq.ret_kind(p) == "Err" and not ww and p.ret is not None and "ReturnToSender" in show(p.ret):
@@ -120,15 +120,63 @@ def check_req_recv(f, rep):
                 len_ok = len_ok or (e[1] == "Gt" and t is True) or (e[1] == "Le" and t is False)
         empt = False
         for (e, c, _, _) in p.conds:
-            t = pathq.truth(c)
-            if e[0] in ("pure", "call") and short(e[1]) == "is_empty" and pops and any(x == pops[0].result for x in walk_expr(e)):
-                empt = t is True
+            em = emptiness(e, c)
+            if em is not None and pops and any(x == pops[0].result for x in walk_expr(em[0])):
+                empt = em[1] is True
         rep.check(len(pops) == 1 and not other and len_ok and empt, "R07.2", "R07.2|strip-delimiter",
                   "REQ recv returns Ok only after len>=2 (%s), exactly one pop_front (%d), popped frame tested empty (%s), no other mutation (%s)" % (len_ok, len(pops), empt, other), co.loc())
     rep.floor("R07.2", "Ok exits of REQ recv", n, 1)
 
 
+def rep_fields(f):
+    """(envelope field, requester field) of the REP socket, by type"""
+    from ..common import fields_by_type
+    env = fields_by_type(f, "rep::RepSocket", lambda ty: ty.startswith("std::option::Option<") and "ZmqMessage" in ty or ty.startswith("std::option::Option<") and "Envelope" in ty)
+    # a private newtype around the message also counts: Option<T> where T is a local struct holding a ZmqMessage
+    if not env:
+        for p_, a in f.adts.items():
+            if a["kind"] == "Struct" and any("ZmqMessage" in x["ty"] for x in a["variants"][0]["fields"]):
+                nm = p_.split("::")[-1]
+                env = fields_by_type(f, "rep::RepSocket", lambda ty, nm=nm: ty.startswith("std::option::Option<") and ty.rstrip(">").endswith(nm))
+                if env:
+                    break
+    req = fields_by_type(f, "rep::RepSocket", lambda ty: ty.startswith("std::option::Option<") and "PeerIdentity" in ty)
+    return (env[0] if env else None), (req[0] if req else None)
+
+
+def first_empty_position(f, x):
+    """x is `frames.iter().position(|fr| fr.is_empty())`: plain iter() of a message (no adaptor), predicate = emptiness of the item"""
+    while isinstance(x, tuple) and x and x[0] == "ref":
+        x = x[1]
+    if not (isinstance(x, tuple) and x and x[0] in ("call", "pure") and short(x[1]) == "position" and len(x[2]) == 2):
+        return False
+    it = x[2][0]
+    while isinstance(it, tuple) and it and it[0] == "ref":
+        it = it[1]
+    if not (it[0] in ("call", "pure") and short(it[1]) == "iter" and ("ZmqMessage" in it[1] or "VecDeque" in it[1])):
+        return False
+    clo = x[2][1]
+    if not (clo[0] == "agg" and clo[1] == "closure"):
+        return False
+    cb = f.body(clo[2])
+    if cb is None:
+        return False
+    n = 0
+    for cp in pathq.paths(f, cb):
+        if cp.end != "return":
+            continue
+        n += 1
+        r = cp.ret
+        if not (r[0] in ("call", "pure") and short(r[1]) == "is_empty" and any(y == ("arg", 2) for y in walk_expr(r))):
+            return False
+    return n > 0
+
+
 def check_rep_recv(f, rep):
+    ENV, REQ = rep_fields(f)
+    rep.check(ENV is not None and REQ is not None, "R07.3", "R07.3|state-fields", "REP socket state fields by type: envelope=%s requester=%s" % (ENV, REQ))
+    if ENV is None or REQ is None:
+        return
     co = socket_coroutine(f, "SocketRecv", "recv", "RepSocket")
     if co is None:
         rep.bad("R07.3", "R07.3|anchor", "RepSocket::recv not found (anchor-missing)")
@@ -139,7 +187,7 @@ def check_rep_recv(f, rep):
         if p.end != "return":
             continue
         rk = pathq.ret_kind(p)
-        stores = [ev for ev in p.events if ev.kind == "store" and (ev.place.endswith(".envelope") or ev.place.endswith(".current_request"))]
+        stores = [ev for ev in p.events if ev.kind == "store" and (ev.place.endswith("." + ENV) or ev.place.endswith("." + REQ))]
         if rk == "Err":
             rep.check(not stores, "R07.3", "R07.3|err-exit-effect-free",
                       "an error exit of REP recv leaves the stored envelope and requester untouched (stores: %s)" % [s.place for s in stores], co.loc())
@@ -165,12 +213,20 @@ def check_rep_recv(f, rep):
                 chain_ok = False
         if scans:
             rep.check(chain_ok, "R07.3", "R07.3|scan-all-frames", "the delimiter scan enumerates all frames from index 0 (iterator chain is iter().enumerate() only)", co.loc(scans[0].bb))
+        # the other scan form: frames.iter().position(|fr| fr.is_empty())
+        pos_some = [c for (e, c, _, _) in p.conds if e[0] == "discr" and first_empty_position(f, e[1]) and c in (("eq", 1), ("notin", (0,)))]
+        pos_seen = [c for (e, c, _, _) in p.conds if e[0] == "discr" and first_empty_position(f, e[1])]
         if at == ("int", 1):
             # default: no empty frame was found on this path
-            found = [1 for (e, c, _, _) in p.conds if e[0] in ("pure", "call") and short(e[1]) == "is_empty" and pathq.truth(c) is True and
-                     pathq.mentions_call(e, lambda x: short(x[1]) == "next" and "Enumerate" in x[1]) is not None]
-            rep.check(not found, "R07.3", "R07.3|split-default", "split index 1 is used only when no scanned frame was empty", co.loc())
+            found = [1 for (e, c, _, _) in p.conds if emptiness(e, c) is not None and emptiness(e, c)[1] is True and
+                     pathq.mentions_call(emptiness(e, c)[0], lambda x: short(x[1]) == "next" and "Enumerate" in x[1]) is not None]
+            rep.check(not found and not pos_some, "R07.3", "R07.3|split-default", "split index 1 is used only when no scanned frame was empty", co.loc())
+            rep.check(bool(scans) or bool(pos_seen), "R07.3", "R07.3|split-default-after-scan", "split index 1 is used only after the frames were scanned for a delimiter", co.loc())
             forms.add("default")
+        elif at[0] == "binop" and at[1] == "Add" and at[3] == ("int", 1) and at[2][0] == "field" and at[2][1][0] == "downcast" and \
+                at[2][1][2] == "Some" and first_empty_position(f, at[2][1][1]):
+            rep.ok("R07.3", "R07.3|split-at-first-empty", "split index = position(first empty frame) + 1 over all frames", co.loc())
+            forms.add("found")
         elif at[0] == "binop" and at[1] == "Add" and at[3] == ("int", 1):
             idx = at[2]
             nx = pathq.mentions_call(idx, lambda x: short(x[1]) == "next" and "Enumerate" in x[1])
@@ -179,13 +235,14 @@ def check_rep_recv(f, rep):
             this_empty = False
             earlier_nonempty = True
             for (e, c, _, _) in p.conds:
-                if e[0] in ("pure", "call") and short(e[1]) == "is_empty":
-                    src = pathq.mentions_call(e, lambda x: short(x[1]) == "next" and "Enumerate" in x[1])
+                em = emptiness(e, c)
+                if em is not None:
+                    src = pathq.mentions_call(em[0], lambda x: short(x[1]) == "next" and "Enumerate" in x[1])
                     if src is None:
                         continue
                     if src == nx:
-                        this_empty = pathq.truth(c) is True
-                    elif pathq.truth(c) is True:
+                        this_empty = em[1] is True
+                    elif em[1] is True:
                         earlier_nonempty = False
             rep.check(is_idx and this_empty and earlier_nonempty, "R07.3", "R07.3|split-at-first-empty",
                       "split index = (index of the first empty frame) + 1 (index from enumerate: %s, that frame empty: %s, earlier frames non-empty: %s)" % (is_idx, this_empty, earlier_nonempty), co.loc())
@@ -204,7 +261,7 @@ def check_rep_recv(f, rep):
             nonempty = any(e[0] in ("pure", "call") and short(e[1]) == "is_empty" and pathq.truth(c) is False and any(x == r for x in walk_expr(e)) for (e, c, _, _) in p.conds)
         rep.check(nonempty, "R07.3", "R07.3|body-non-empty", "REP recv returns Ok only when at least one frame follows the delimiter (split index < frame count)", co.loc())
         # envelope := the kept part, requester := queue key
-        env = [s for s in p.events if s.kind == "store" and s.place.endswith(".envelope")]
+        env = [s for s in p.events if s.kind == "store" and s.place.endswith("." + ENV)]
         ok_env = len(env) == 1 and env[0].value[0] == "agg" and env[0].value[3] == "Some" and any(isinstance(x, tuple) and x and x[0] == "havoc" for x in walk_expr(env[0].value))
         rep.check(ok_env, "R07.3", "R07.3|envelope-stored", "the frames up to and including the delimiter are stored as the envelope (stores=%d)" % len(env), co.loc())
     rep.floor("R07.3", "Ok exits of REP recv", n_ok, 2)
@@ -212,6 +269,10 @@ def check_rep_recv(f, rep):
 
 
 def check_rep_send(f, rep):
+    ENV, REQ = rep_fields(f)
+    if ENV is None:
+        rep.bad("R07.4", "R07.4|state-fields", "REP envelope field not found (anchor-missing)")
+        return
     co = socket_coroutine(f, "SocketSend", "send", "RepSocket")
     if co is None:
         rep.bad("R07.4", "R07.4|anchor", "RepSocket::send not found (anchor-missing)")
@@ -225,13 +286,13 @@ def check_rep_send(f, rep):
             pre = [m for _, m in muts if short(m.name) == "prepend"]
             other = [short(m.name) for _, m in muts if short(m.name) != "prepend"]
             env_some = any(e[0] == "discr" and c == ("eq", 1) and pathq.mentions_call(e[1], lambda x: short(x[1]) == "take") is not None and
-                           any(isinstance(y, tuple) and y and y[0] == "field" and y[2] == "envelope" for y in walk_expr(e[1])) for (e, c, _, _) in p.conds[:ev.ncond])
+                           any(isinstance(y, tuple) and y and y[0] == "field" and y[2] == ENV for y in walk_expr(e[1])) for (e, c, _, _) in p.conds[:ev.ncond])
             if not env_some:
                 rep.check(not pre and not other, "R07.4", "R07.4|no-envelope-no-prepend", "without a stored envelope the reply is written as given", co.loc(ev.bb))
                 continue
             ok = len(pre) == 1 and not other and is_param_msg(pre[0].args[0]) and \
                 pathq.mentions_call(pre[0].args[1], lambda x: short(x[1]) == "take") is not None and \
-                any(isinstance(y, tuple) and y and y[0] == "field" and y[2] == "envelope" for y in walk_expr(pre[0].args[1])) and \
+                any(isinstance(y, tuple) and y and y[0] == "field" and y[2] == ENV for y in walk_expr(pre[0].args[1])) and \
                 item[0] == "agg" and item[3] == "Message" and is_param_msg(item)
             rep.check(ok, "R07.4", "R07.4|prepend-envelope-once",
                       "REP prepends the taken envelope onto the reply exactly once and writes the reply (prepends=%d, receiver is reply=%s, other mutations=%s)" % (
@@ -251,8 +312,12 @@ def check_message_ops(f, rep):
                 seen += 1
                 src = ev.args[1]
                 names = [short(x[1]) for x in walk_expr(src) if isinstance(x, tuple) and x and x[0] in ("call", "pure")]
-                ok = short(ev.name) == "push_front" and "rev" in names and "iter" in names and "clone" in names and ev.args[0] == ("arg", 1) and \
-                    any(x == ("arg", 2) for x in walk_expr(src))
+                recv = ev.args[0]
+                while recv[0] in ("ref", "field", "deref"):
+                    recv = recv[1]
+                adaptors = [nm for nm in names if nm in ("skip", "filter", "step_by", "take", "skip_while", "take_while", "chain", "zip", "peekable", "filter_map", "map")]
+                ok = short(ev.name) == "push_front" and "rev" in names and "iter" in names and ("clone" in names or "cloned" in names) and \
+                    names.count("rev") == 1 and not adaptors and recv == ("arg", 1) and any(x == ("arg", 2) for x in walk_expr(src))
                 alt = short(ev.name) == "push_back"
                 rep.check(ok and not alt, "R07.5", "R07.5|prepend-order",
                           "prepend pushes clones of the other message's frames to the front in reverse order (keeps their order): %s via %s" % (short(ev.name), [n for n in names if n in ("rev", "iter", "clone")]), b.loc(ev.bb))
